@@ -178,7 +178,7 @@ End Ruiz.
 
 (* IdentityPreconditioner: every operation is the identity *)
 Definition scale_data (K : Consts) (pc : Precond) (d : Data) (reuse scale_cost : bool) (max_it : Z) : res (Precond * Data) :=
-  if pc_ident pc then Ok (pc, d) else ruiz_scale_data K pc d reuse scale_cost max_it.
+  if pc_ident pc then Ok (pc <| pc_nlb := d_nlb d |> <| pc_nub := d_nub d |>, d) else ruiz_scale_data K pc d reuse scale_cost max_it.
 Definition unscale_data (pc : Precond) (d : Data) : res Data :=
   if pc_ident pc then Ok d else ruiz_unscale_data pc d.
 
